@@ -232,7 +232,8 @@ def main():
             'kind_free_text': 'solver-based checking of the real code: the repository functions are executed by CPython on z3-backed proxy '
                               'values (symbolic payload words, positions, selectors, fault index, schedules); branches on symbolic conditions '
                               'are decided by z3 with decision-replay path exploration; obligations output = specification are discharged by z3; '
-                              'counterexamples are replayed on the unpatched code before being reported',
+                              'counterexamples are replayed on the unpatched code before being reported; a sample of the queries z3 answers unsat is re-asked, as '
+                              'SMT-LIB2 text, of cvc5 (a disagreement makes the obligation inconclusive and the run a harness problem)',
         }],
         'checks': checks,
         'not_applicable': na,
